@@ -786,7 +786,7 @@ func rulesStackOps(c *Ctx, r *Report) {
 				break
 			}
 			if sl, ok := p.Type().Underlying().(*types.Slice); ok {
-				if _, ok := sl.Elem().Underlying().(*types.Struct); ok && len(naturalLoop(b)) > 1 {
+				if _, ok := sl.Elem().Underlying().(*types.Struct); ok && isLoopHeader(b) {
 					phi = p
 				}
 			}
@@ -937,7 +937,32 @@ func isPlusOneOfLoad(v ssa.Value, addr ssa.Value) bool {
 	if !ok || ld.Op != token.MUL {
 		return false
 	}
-	return sameElemAddr(ld.X, addr)
+	if sameElemAddr(ld.X, addr) {
+		return true
+	}
+	// the old value read from a local copy of the same element: step := stack[top]; stack[top].i = step.i + 1
+	if fa, ok := ld.X.(*ssa.FieldAddr); ok {
+		if al, ok := fa.X.(*ssa.Alloc); ok {
+			if whole := cellValue(al); whole != nil {
+				if wl, ok := whole.(*ssa.UnOp); ok && wl.Op == token.MUL {
+					ra, fld := elemRoot(addr)
+					rw, _ := elemRoot(wl.X)
+					return ra != nil && rw != nil && fld == fa.Field && ra.Index == rw.Index && (ra.X == rw.X || isAppendOf(ra.X, rw.X))
+				}
+			}
+		}
+	}
+	return false
+}
+
+// isAppendOf: v is append(base, …).
+func isAppendOf(v, base ssa.Value) bool {
+	cl, ok := v.(*ssa.Call)
+	if !ok {
+		return false
+	}
+	b, ok := cl.Call.Value.(*ssa.Builtin)
+	return ok && b.Name() == "append" && len(cl.Call.Args) > 0 && cl.Call.Args[0] == base
 }
 
 func sameElemAddr(a, b ssa.Value) bool {
